@@ -306,7 +306,153 @@ def check_progs(chk, progs, exhaustive_note=None):
                          {"raised": raised, "final": final, "events": got_events[:6]})
 
 
+class PoolBroken(RuntimeError):
+    pass
+
+
+class FaultyPool(FakePool):
+    """a pool whose own shutdown fails while the context is being left (a dead worker makes join() raise; close() on a broken pool
+    raises; an executor-style object has no close() at all)"""
+
+    def __init__(self, pid, fail):
+        super().__init__(pid)
+        self.fail = fail
+
+    def close(self):
+        if self.fail == "close":
+            raise PoolBroken("close")
+        super().close()
+
+    def join(self):
+        if self.fail == "join":
+            raise PoolBroken("join")
+        super().join()
+
+
+class NoClosePool:
+    def __init__(self, pid):
+        self.pid, self.log = pid, []
+
+    def map(self, f, xs):
+        return list(map(f, xs))
+
+
+def check_shutdown_faults(chk):
+    """leaving the pool context is an exit path also when the pool's own shutdown raises: likelihood, prior and checkpoint defaults
+    must be those of entry afterwards (direct oracle; the model's pools always shut down cleanly)"""
+    layouts = ("pool", "auto(pool)", "pool(auto)", "pool(pool)")
+    for layout in layouts:
+        for fail in ("close", "join", "no_close_method"):
+            for par in (False, True):
+                for body_raises in (False, True):
+                    for close in (True, False):
+                        a = make_instance()
+                        ll0, lp0 = a.log_likelihood, a.log_prior
+                        had = hasattr(a, "_checkpoint_defaults")
+                        case = {"level": "shutdown_fault", "layout": layout, "fail": fail, "parallelize_prior": par, "body_raises": body_raises, "close_pool": close}
+                        chk.count("shutdown_fault:" + fail)
+                        chk.case(case if chk.evaluations < 30 else None, json.dumps(case))
+                        mk = (lambda pid: NoClosePool(pid)) if fail == "no_close_method" else (lambda pid: FaultyPool(pid, fail))
+
+                        def body():
+                            if a.log_likelihood is ll0:
+                                raise AssertionError("not replaced")
+                            if body_raises:
+                                raise Boom()
+                        try:
+                            if layout == "pool":
+                                with a.enable_pool(mk(1), close_pool=close, parallelize_prior=par):
+                                    body()
+                            elif layout == "auto(pool)":
+                                with a.auto_checkpoint(path_name(1), every=2):
+                                    with a.enable_pool(mk(1), close_pool=close, parallelize_prior=par):
+                                        body()
+                            elif layout == "pool(auto)":
+                                with a.enable_pool(mk(1), close_pool=close, parallelize_prior=par):
+                                    with a.auto_checkpoint(path_name(1), every=2):
+                                        body()
+                            else:
+                                with a.enable_pool(FakePool(2), close_pool=False, parallelize_prior=not par):
+                                    with a.enable_pool(mk(1), close_pool=close, parallelize_prior=par):
+                                        body()
+                        except (Boom, PoolBroken, AttributeError):
+                            pass
+                        except AssertionError as e:
+                            chk.fail("pool body sees the pooled likelihood", case, repr(e), {"clause": "pool"})
+                            continue
+                        if a.log_likelihood is not ll0 or a.log_prior is not lp0:
+                            what = [n for n, (x, y) in {"log_likelihood": (a.log_likelihood, ll0), "log_prior": (a.log_prior, lp0)}.items() if x is not y]
+                            chk.fail("likelihood and prior restored on leaving the pool context", case,
+                                     f"{what} still replaced after the context was left through a failing pool shutdown ({fail})", {"clause": "likelihood", "shutdown_fault": fail})
+                        if hasattr(a, "_checkpoint_defaults") != had:
+                            chk.fail("checkpoint defaults restored on leaving the auto-checkpoint context", case,
+                                     "checkpoint defaults left behind after a failing pool shutdown", {"clause": "checkpoint", "shutdown_fault": fail})
+
+
+def check_rejected_requests(chk):
+    """a pool request the library rejects (a callable without `map_fn`) is an exit path too - the usual "try the pool, fall back to
+    serial" pattern: whatever raises, wherever (constructing the handler or entering it), the instance must be as before"""
+    from aspire import Aspire
+
+    for lacks in ("log_prior", "log_likelihood"):
+        for par in (True, False):
+            for layout in ("plain", "inside auto", "inside pool", "one with statement"):
+                def ll(samples, map_fn=map):
+                    return 0.0
+
+                def ll_plain(samples):
+                    return 0.0
+
+                def lp(samples, map_fn=map):
+                    return 0.0
+
+                def lp_plain(samples):
+                    return 0.0
+                a = Aspire(log_likelihood=ll_plain if lacks == "log_likelihood" else ll, log_prior=lp_plain if lacks == "log_prior" else lp, dims=1, parameters=["a"])
+                ll0, lp0 = a.log_likelihood, a.log_prior
+                case = {"level": "rejected_request", "lacks_map_fn": lacks, "parallelize_prior": par, "layout": layout}
+                rejected = lacks == "log_likelihood" or par
+                chk.count("rejected_request" if rejected else "accepted_request_control")
+                chk.case(case if chk.evaluations < 40 else None, json.dumps(case))
+                inner_ll = []
+                try:
+                    if layout == "plain":
+                        with a.enable_pool(FakePool(1), parallelize_prior=par):
+                            inner_ll.append(a.log_likelihood)
+                    elif layout == "inside auto":
+                        with a.auto_checkpoint(path_name(1)):
+                            with a.enable_pool(FakePool(1), parallelize_prior=par):
+                                inner_ll.append(a.log_likelihood)
+                    elif layout == "inside pool":
+                        if lacks == "log_likelihood":
+                            continue
+                        with a.enable_pool(FakePool(2), parallelize_prior=False):
+                            mid = a.log_likelihood
+                            try:
+                                with a.enable_pool(FakePool(1), parallelize_prior=par):
+                                    inner_ll.append(a.log_likelihood)
+                            except ValueError:
+                                pass
+                            if rejected and a.log_likelihood is not mid:
+                                chk.fail("likelihood and prior restored on leaving the pool context", case,
+                                         "a rejected inner pool request left the likelihood of the enclosing pool context replaced", {"clause": "likelihood", "rejected": True})
+                    else:
+                        with a.auto_checkpoint(path_name(1)), a.enable_pool(FakePool(1), parallelize_prior=par):
+                            inner_ll.append(a.log_likelihood)
+                except ValueError:
+                    pass
+                if a.log_likelihood is not ll0 or a.log_prior is not lp0:
+                    what = [n for n, (x, y) in {"log_likelihood": (a.log_likelihood, ll0), "log_prior": (a.log_prior, lp0)}.items() if x is not y]
+                    chk.fail("likelihood and prior restored on leaving the pool context", case,
+                             f"{what} still replaced after a pool request that was rejected (no map_fn in {lacks})", {"clause": "likelihood", "rejected": True})
+                if hasattr(a, "_checkpoint_defaults"):
+                    chk.fail("checkpoint defaults restored on leaving the auto-checkpoint context", case, "defaults left behind after a rejected pool request",
+                             {"clause": "checkpoint", "rejected": True})
+
+
 def run(chk: core.Check):
+    check_shutdown_faults(chk)
+    check_rejected_requests(chk)
     r = np.random.default_rng(chk.seed + 19019)
     quick = chk.tier == "quick"
     chk.rule = ("programs over act/touch/obs/raise/seq/enable_pool(close_pool, parallelize_prior)/auto_checkpoint(path, every, save_config, save_flow), "
